@@ -314,3 +314,15 @@ Definition sig_body_fields (key_context : bool) (body : list N) : option sig_fie
 (* the validity verdict of a parsed signature: CheckValidity on exactly these fields *)
 Definition sig_fields_validity (current keycreation : Z) (f : sig_fields) : validity :=
   check_validity current (Z.of_N (sf_created f)) (Z.of_N (sf_sigexp f)) keycreation (sf_hashalgo f).
+
+(* ------------------------------------------------------------------------------------------------ *)
+(* What AsymmetricVerifyEdDSA hands to the primitive (:16200-16290): the two MPIs of the packet are     *)
+(* numbers, so leading zero octets of R and S are gone; values shorter than 32 octets are padded back  *)
+(* to 32 octets, full-length values are passed as libgcrypt integers (observed: minimal big-endian)     *)
+(* ------------------------------------------------------------------------------------------------ *)
+Definition sexp_mpi (v : N) : list N := be_bytes (mpi_octets v) v.
+Definition eddsa_component (v : N) : list N := if (mpi_octets v <? 32)%nat then be_bytes 32 v else sexp_mpi v.
+Definition eddsa_sigval (r s : N) : option (list N * list N) :=
+  let rl := mpi_octets r in let sl := mpi_octets s in
+  if ((rl =? 0) || (32 <? rl) || (sl =? 0) || (32 <? sl))%nat then None
+  else Some (eddsa_component r, eddsa_component s).
